@@ -116,8 +116,11 @@ Fixpoint evc (r : env) (c : cnd) : outcome bool :=
   | COr a b => obind (evc r a) (fun x => if x then Ok true else evc r b)
   end.
 
-(* one emitted collapse term of one qubit: kind, sign of the coefficient, SQUARE of the coefficient (= rate) *)
+(* one emitted collapse term of one qubit: kind, sign of the coefficient, SQUARE of the coefficient (= rate).
+   A coefficient that numpy evaluated to inf/nan (no exception is raised, later statements still run and may still
+   raise) is recorded with the impossible sign `nan_mark`; `setup` turns its presence into the outcome NonFinite. *)
 Definition emit := (opk * Z * Q)%type.
+Definition nan_mark : Z := 2%Z.
 
 Inductive xres :=
 | XNext (r : env) (ops : list emit)      (* fell through *)
@@ -136,7 +139,10 @@ Fixpoint exec (s : stmt) (r : env) (ops : list emit) : xres :=
   | SIf c th el => match evc r c with Ok true => exec th r ops | Ok false => exec el r ops | o => stop o end
   | SRaise => XStop (Raised ErrValue)
   | SContinue => XCont ops
-  | SEmit coef k => match evr r coef with Ok (sg, sq) => XNext r (ops ++ [(k, sg, sq)]) | o => stop o end
+  | SEmit coef k => match evr r coef with
+                     | Ok (sg, sq) => XNext r (ops ++ [(k, sg, sq)])
+                     | NonFinite => XNext r (ops ++ [(k, nan_mark, 0)])   (* inf/nan coefficient: no exception, execution goes on *)
+                     | o => stop o end
   end.
 
 (* ---------------------------------------------------------------------------------------------- *)
@@ -190,6 +196,8 @@ Definition oval (o : option Q) : val := match o with None => VNone | Some q => V
 (* one collapse term of the register: (qubit, kind, sign, rate) *)
 Definition term := (nat * opk * Z * Q)%type.
 
+Definition nanb (t : term) : bool := Z.eqb (snd (fst t)) nan_mark.
+
 Definition qubit_terms (body : stmt) (l1 l2 : list (option Q)) (q : nat) : outcome (list term) :=
   match nth_error l1 q, nth_error l2 q with
   | Some a, Some b =>
@@ -215,7 +223,8 @@ Definition setup (rules : list (gex * tact)) (lencheck : bool) (body : stmt)
   obind (t_to_list rules N T1) (fun l1 =>
   obind (t_to_list rules N T2) (fun l2 =>
   if lencheck && negb (Nat.eqb (length l1) N && Nat.eqb (length l2) N) then Raised ErrValue
-  else loop body l1 l2 (match targets with None => seq 0 N | Some ts => ts end))).
+  else obind (loop body l1 l2 (match targets with None => seq 0 N | Some ts => ts end))
+             (fun ops => if existsb nanb ops then NonFinite else Ok ops))).
 
 (* ---------------------------------------------------------------------------------------------- *)
 (* The unchanged code (/repo at the snapshot the check was built on), exactly as the translator emits it.
